@@ -284,6 +284,11 @@ def run_c15(repo, tier, seed, only=None):
     R.cases += 1
     if b1 != b2:
         R.fail('bounded:C15.known:repeat-with-priority-tagged-list-elements', f'docs={kf}: built {b1!r}, with the last document repeated {b2!r}', {'family': 'c15', 'docs': kf})
+    kf2 = ['{b: !force []}', "{b: !merge ['v', [2, 1.5]]}"]
+    b1, b2 = build(ay, kf2), build(ay, kf2 + [kf2[-1]])
+    R.cases += 1
+    if b1 != b2:
+        R.fail('bounded:C15.known:nested-list-added-to-a-forced-list-loses-its-items', f'docs={kf2}: built {b1!r}, with the last document repeated {b2!r}', {'family': 'c15', 'docs': kf2})
     for _ in range(n_cases(tier, 300, 5000)):
         docs = gen_sequence(rng, no_prio_in_seq=True)
         texts = [G.render(d) for d in docs]
